@@ -56,6 +56,7 @@ def run(P, R, tier):
     open_rule(P, R)
     stream_rule(P, R)
     percol_rule(P, R)
+    reopen_rule(P, R)
     # the engine-side selected-output switch pr.punch and the sink gate punch_on move together (shared with C07.mirror):
     # a write of pr.punch that is not followed by Set_punch_on lets the table fill while string and file stay empty (or v.v.)
     from . import c07 as C07
@@ -98,6 +99,31 @@ def once_rule(P, R):
             for c in T.children(node):
                 rec(c, in_loop)
         rec(f["body"], False)
+
+
+def reopen_rule(P, R):
+    """A block's file and string must restart together.  IPhreeqc::punch_open is the single place where the file of a
+    selected-output block is (re)opened; when it opens it in truncating mode the rows already written for that block in this
+    call disappear from the file, so the same function must also reset the block's string (or open in append mode).  The
+    engine calls it again when SELECTED_OUTPUT n is redefined in a later simulation of the same call."""
+    R.rule("C05.reopen", "re-opening a block's selected-output file in truncating mode also resets the block's string (or appends)", minimum=1)
+    f = P.one("IPhreeqc::punch_open")
+    opens = [c for c in T.calls(f["body"]) if T.callee_name(c) == "ofstream_open"]
+    if not opens:
+        R.anchor_missing("C05.reopen", "IPhreeqc::punch_open no longer calls ofstream_open")
+        return
+    resets = []
+    for x in T.walk(f["body"]):
+        if x[0] == "Call" and T.callee_name(x) in ("clear", "erase") and "SelectedOutputStringMap" in T.text(x):
+            resets.append(x[1])
+        if x[0] in ("Bin",) and x[2] == "=" and "SelectedOutputStringMap" in T.text(x[3]):
+            resets.append(x[1])
+    appends = any("app" in T.text(a) for c in opens for a in c[4])
+    if resets or appends:
+        R.ok("C05.reopen", "punch_open:SelectedOutputStringMap", "string reset at line %s / append mode" % (resets or "-"))
+    else:
+        R.violation("C05.reopen", "punch_open:SelectedOutputStringMap", "punch_open (re)opens the block's file with the caller's mode (truncating) but leaves the block's string untouched: when "
+                    "SELECTED_OUTPUT n is redefined in a later simulation of the same call the file restarts while the string keeps the earlier rows", file=f["file"], line=opens[0][1], function=f["q"])
 
 
 def percol_rule(P, R):
